@@ -185,7 +185,7 @@ def c15(run):
             pids = rng.sample(ids, 4)
             if k % 3 == 0:
                 pids[2] = os.path.join(base, "c%d" % k, "d1")      # an identifier that names an existing file: still an opaque string
-            ns = rng.choice([DEFAULT_NS, "http://ns.example/v1", "ns"])
+            ns = rng.choice([DEFAULT_NS, "http://ns.example/v1", "ns", "urn:local\\types\\nceas-sysmeta-v1", 'q"uote: #x', "2.0"])      # incl. values a naive YAML writer mangles
             fmt2 = rng.choice(["http://www.w3.org/ns/prov#", "fmt", pids[1], "a b"])
             data1 = os.urandom(rng.choice([0, 1, 100, 5000]))
             data2 = data1 + b"x"
@@ -718,6 +718,16 @@ def c17(run):
         sha = hashlib.sha256(other).hexdigest()
         bad_str = ["N", S(""), S(" "), S("a b"), S("\t"), S("a\nb"), S("x\x1c")]
         bad_algo = [S("sha-3"), S("md6"), S("sha256x"), S("sm3"), S("SHA-2560")]
+        # what is (un)supported does not depend on what the instance was asked before: every supported algorithm is used once,
+        # then spellings that differ from a supported one only in their separators - and that the model rejects - are tried
+        for a_ in list(CANON) + ["SHA3-256", "Sha3_384", "SHA3_512", "BLAKE2B"]:
+            try:
+                hs.get_hex_digest("bound-pid", a_)
+            except Exception:  # noqa: BLE001
+                pass
+        near = ["sha3256", "SHA-3384", "sha_35_12", "sha3224", "sha-3512", "sha2_56", "s_ha256", "blake2_b", "blake-2s", "m_d5", "sha_1"]
+        near = [n_ for n_, r_ in zip(near, layerA(["clean " + hx(n_) for n_ in near])) if r_ == "none"]
+        bad_algo += [S(n_) for n_ in near]
         bad_size = ["I0", "I-1", "U", S("5"), "F", "Z", "Y"]
         bad_data = ["N", S(""), S("  "), "I5", "Y", "X", "Z", "F", "T"]
         # method -> (valid argument vector, per-parameter invalid values, in the order of the model's args_* functions)
@@ -999,8 +1009,18 @@ def c14(run):
             elif state == "emptyroot":
                 os.makedirs(root)
             elif state == "datadirs":
-                for s_ in ("objects", "metadata", "refs"):
-                    os.makedirs(os.path.join(root, s_))
+                # the data directories of a store whose configuration file is gone: real directories, only one of them, or
+                # symbolic links to directories elsewhere (a store root assembled from several volumes)
+                shape = rng.choice(["dirs", "dirs", "one", "links"])
+                os.makedirs(root, exist_ok=True)
+                names = ("objects", "metadata", "refs") if shape != "one" else (rng.choice(("objects", "metadata", "refs")),)
+                for s_ in names:
+                    if shape == "links":
+                        tgt = os.path.join(sub, "vol-" + s_)
+                        os.makedirs(tgt, exist_ok=True)
+                        os.symlink(tgt, os.path.join(root, s_))
+                    else:
+                        os.makedirs(os.path.join(root, s_))
             # the reopening properties
             rprops = dict(cprops)
             for kk, vv in mut.items():
@@ -1009,7 +1029,7 @@ def c14(run):
                 else:
                     rprops[kk] = vv
             root_exists = os.path.exists(root)
-            dd = os.path.isdir(os.path.join(root, "objects"))
+            dd = any(os.path.isdir(os.path.join(root, s_)) for s_ in ("objects", "metadata", "refs"))     # the model's input: "a data directory is there"
             before = tree(sub, with_dirs=True, mtime=True)
             try:
                 hs2 = F(dict(rprops))
@@ -1081,7 +1101,8 @@ def c14(run):
             shutil.rmtree(sub, ignore_errors=True)
         # ---- namespaces / values that a hand-made YAML writer would mangle: what was created must be what reopens, and nothing else
         ODD_NS = ["http://ns.example.org/sysmeta #v2", "2.0", "yes", "null", "a: b", "'quoted'", "ns\ttab", "- item", "{x}", "~", "1e3", "http://x/y?z=1&w=2#frag", "Größe"]
-        for i, ns_ in enumerate(ODD_NS if not quick else rng.sample(ODD_NS, 6)):
+        ESC_NS = ["urn:local\\types\\nceas-sysmeta-v1", 'say "hi"', "back\\slash\\", "50%", "a\\u0041b"]      # backslashes and double quotes (escapes inside a quoted YAML scalar)
+        for i, ns_ in enumerate((ODD_NS if not quick else rng.sample(ODD_NS, 5)) + (ESC_NS if not quick else ESC_NS[:2] + rng.sample(ESC_NS[2:], 1))):
             sub = os.path.join(base, "odd%d" % i)
             os.makedirs(sub)
             root = os.path.join(sub, "store")
